@@ -188,6 +188,9 @@ let run_case (line : string) : string =
   | "openline" -> let (p, r) = Penalty.oracle_line (unhex a.(1)) in Printf.sprintf "%s %s" (string_of_n p) (string_of_n r)
   | "orsstream" ->
     if Oracles.oracle_rs_stream (nat_of_int (int_of_string a.(1))) (nat_of_int (int_of_string a.(2))) (unhex a.(3)) (unhex a.(4)) then "1" else "0"
+  | "omaskiso" ->
+    let n = int_of_string a.(2) in
+    if Oracles.oracle_mask_iso (nat_of_int (int_of_string a.(1))) (rows_from n (unhex a.(3))) (rows_from n (unhex a.(4))) then "1" else "0"
   | "omode" -> string_of_int (int_of_nat (Oracles.oracle_mode (unhex a.(1))))
   | "oec" -> hex (Oracles.oracle_ec (unhex a.(1)) (nat_of_int (int_of_string a.(2))))
   | "ominver" ->
